@@ -223,6 +223,24 @@ func GenSpec(t *rapid.T) *Spec {
 			uint64(rapid.SampledFrom([]int{1, 7, 1000, 123456}).Draw(t, "ddAmount")),
 		})
 	}
+	// chains of debonding delegations maturing together: X -> A and A -> B (X a user, another entity, or A itself)
+	for i, n := 0, rapid.IntRange(0, 2).Draw(t, "ndebChains"); i < n && s.NEntities >= 2; i++ {
+		a := rapid.IntRange(0, s.NEntities-1).Draw(t, "dcA")
+		b := rapid.IntRange(0, s.NEntities-1).Draw(t, "dcB")
+		if a == b {
+			b = (a + 1) % s.NEntities
+		}
+		x := uint64(a) // self-delegation of A
+		switch rapid.IntRange(0, 2).Draw(t, "dcXKind") {
+		case 0:
+			x = 1000 + uint64(rapid.IntRange(0, s.NUsers-1).Draw(t, "dcXUser"))
+		case 1:
+			x = uint64(rapid.IntRange(0, s.NEntities-1).Draw(t, "dcXEntity"))
+		}
+		off := uint64(rapid.IntRange(0, 4).Draw(t, "dcEnd"))
+		amt := func(l string) uint64 { return uint64(rapid.SampledFrom([]int{1, 7, 1000, 123456}).Draw(t, l)) }
+		s.DebondChains = append(s.DebondChains, [4]uint64{x, uint64(a), amt("dcAmt1"), off}, [4]uint64{uint64(a), uint64(b), amt("dcAmt2"), off})
+	}
 	return s
 }
 
